@@ -33,7 +33,7 @@ if bad:
 
 def explore(run, interp, prop, alphabet, length, kinds):
     def ob(o):
-        o.symbolic = ["server class: %s; authenticator: none / token (exhaustive)" % kinds,
+        o.symbolic = ["server class: %s; authenticator: none / token-reading / token-reading and handing back a new socket object, as ssl wrapping does (exhaustive)" % kinds,
                       "history of %d external events, each any applicable one of %s" % (length, alphabet)]
         o.bounds = {"history_length": length, "schedules": "settled: after every event all runnable threads/processes run to quiescence, round robin",
                     "pool_threads": 2}
@@ -43,7 +43,7 @@ def explore(run, interp, prop, alphabet, length, kinds):
 
         def harness(c):
             kind = kinds[c.choose(len(kinds), "server")]
-            auth = c.choose(2, "authenticator") == 1
+            auth = W.AUTH_KINDS[c.choose(len(W.AUTH_KINDS), "authenticator")]
             sc = W.Scenario(kind, auth, interp)
             hist = []
             c.notes.update(kind=kind, auth=auth, hist=hist)
@@ -74,7 +74,7 @@ def explore(run, interp, prop, alphabet, length, kinds):
                 sig = "%s:%s" % (n["kind"], code)
                 if any(v["signature"] == sig for v in o.violations):
                     continue
-                run.replay(o, sig, "%s (server %s, authenticator %s, history %s)" % (what, n["kind"], "token" if n["auth"] else "none", n["hist"]),
+                run.replay(o, sig, "%s (server %s, authenticator %s, history %s)" % (what, n["kind"], n["auth"] or "none", n["hist"]),
                            replay_script(prop, n["kind"], n["auth"], list(n["hist"])))
 
         n_, incomplete = par_explore(run, o, harness, on_path, acc, split_depth=4)
@@ -93,7 +93,7 @@ def translator_validation(run, interp, prop):
     def ob(o):
         n = 0
         for kind in W.KINDS:
-            for auth in (False, True):
+            for auth in W.AUTH_KINDS:
                 for hist in (["G", "C", "Lf"], ["G", "B-reset-early", "C"], ["B-silent", "G", "Lr"], ["G", "G", "X"]):
                     a = W.run_history(kind, auth, hist, prop)
                     res = []
